@@ -56,6 +56,12 @@ def main():
     ok_build, log = core.build_lean([f"RaftLogModel.Props.{pid}", "driver"])
     forbidden = core.grep_forbidden()
     thms, ok_audit, alog = core.audit_axioms(pid)
+    # independent re-check of the compiled module by Lean's `leanchecker`
+    rc_lc, out_lc, err_lc = core.sh(["lake", "env", "leanchecker", f"RaftLogModel.Props.{pid}"], cwd=core.LEAN,
+                                    timeout=1800) if ok_build else (1, "", "not built")
+    if rc_lc != 0:
+        ok_audit = False
+        alog += "\nleanchecker: " + (out_lc + err_lc)[-1500:]
     bad_axioms = {t: [a for a in ax if a not in core.ALLOWED_AXIOMS] for t, ax in thms.items()}
     bad_axioms = {t: a for t, a in bad_axioms.items() if a}
     expected = P.get("theorems", [])
@@ -103,7 +109,7 @@ def main():
     cov = {
         "obligations": obligations,
         "discharged": discharged if proof_ok else min(discharged, max(0, obligations - 1)),
-        "checker_cmd": f"cd /verif/lean && lake build RaftLogModel.Props.{pid} && lake env lean RaftLogModel/Audit/{pid}.lean",
+        "checker_cmd": f"cd /verif/lean && lake build RaftLogModel.Props.{pid} && lake env lean RaftLogModel/Audit/{pid}.lean && lake env leanchecker RaftLogModel.Props.{pid}",
         "trusted_base": [
             "Lean 4.33 kernel",
             "axioms: " + ", ".join(sorted({a for ax in thms.values() for a in ax})),
